@@ -12,6 +12,8 @@ structure St where
   ids : List (String × Addr) := []
   /-- pending injection: point kind, occurrence, operation tokens -/
   inj : Option (String × Nat × List String) := none
+  /-- `aws_backtrace()` works on the platform the harness was built for (`platform nobt` says it does not) -/
+  bt : Bool := true
 
 /-- Adler-32 of the block contents -/
 def digest (bs : List UInt8) : Nat :=
@@ -259,18 +261,20 @@ def parseCfg : String → Option (Bool × Bool)
 def newTracer (st : St) (lvl frames cfg : String) : St × List String :=
   match st.seq, parseLevel lvl, parseSize? frames, parseCfg cfg with
   | none, some lvl, some f, some (hr, hc) =>
-    let s := Seq.new lvl f { blocks := [], hasRealloc := hr, hasCalloc := hc }
-    ({ st with seq := some s, ids := [], inj := none }, [statLine s.tr])
-  | _, _, _, _ => (st, ["bad-op"])
+    let s := Seq.new lvl f { blocks := [], hasRealloc := hr, hasCalloc := hc } st.bt
+    ({ st with seq := some s, ids := [], inj := none, bt := true }, [statLine s.tr])
+  | _, _, _, _ => ({ st with bt := true }, ["bad-op"])
 
 def step (st : St) (t : List String) : St × List String :=
   match t with
   | ["new", lvl, frames] => newTracer st lvl frames "full"
   | ["new", lvl, frames, cfg] => newTracer st lvl frames cfg
+  -- the platform variant without <execinfo.h>: aws_backtrace() returns 0
+  | ["new", lvl, frames, cfg, "nobt"] => newTracer { st with bt := false } lvl frames cfg
   | ["depth", _] => (st, [])
   | ["destroy"] =>
     match st.seq with
-    | some s => ({ seq := none, ids := [], inj := none }, [s!"P destroy wrapped=ok client_blocks={s.par.blocks.length} bookkeeping=0 parent_after=0"])
+    | some s => ({ st with seq := none, ids := [], inj := none }, [s!"P destroy wrapped=ok client_blocks={s.par.blocks.length} bookkeeping=0 parent_after=0"])
     | none => (st, ["bad-op"])
   | "inject" :: kind :: n :: rest =>
     match st.seq, n.toNat?, parseOp rest with
